@@ -11,6 +11,7 @@ import vlib
 import vctl_common
 
 SPEC = "ControlSession"
+QUICK_MAX = 700
 
 
 def run(tier, seed, replay=None):
@@ -33,6 +34,8 @@ def run(tier, seed, replay=None):
         vectors = os.path.join(rr.dir, "c19.ndjson")
         nvec += sum(1 for _ in open(vectors))
         args = ["c19", "-vectors", vectors, "-receptor", rbin, "-work", wd, "-seed", str(seed + 1000 * i)]
+        if quick:
+            args += ["-max", str(QUICK_MAX)]  # a seeded sample of the exported histories keeps the quick tier short on a loaded machine
         if replay:
             args += ["-replay", replay]
         one = vlib.harness_json(vctl, args, wd, timeout=3400, name="harness%d" % i)
@@ -46,19 +49,21 @@ def run(tier, seed, replay=None):
         v.violation(viol["sig"], viol["what"], viol["replay"])
     if res.get("inconclusive") and not v.violations:
         raise vlib.Inconclusive("; ".join(res["inconclusive"][:5]))
-    if not replay and res["evaluations"] != nvec and not v.violations:
-        raise vlib.Inconclusive("harness replayed %d of %d histories" % (res["evaluations"], nvec))
+    planned = min(nvec, QUICK_MAX) if quick else nvec
+    if not replay and res["evaluations"] != planned and not v.violations:
+        raise vlib.Inconclusive("harness replayed %d of %d planned histories (%d exported)" % (res["evaluations"], planned, nvec))
     c = res["counters"]
     if not replay and not res["violations"] and (c.get("status_replies_verified", 0) == 0 or c.get("refusals_verified", 0) == 0):
         raise vlib.Inconclusive("vacuous run: %s" % c)
     cov = {
         "states": r.distinct, "transitions": r.generated, "traces_validated_against_impl": 0,
         "evaluations": res["evaluations"], "distinct_nontrivial": res["distinct"],
-        "rule": "TLC explores every history (key-class subset x TLS profile named or not x <= MaxOps operations) of ControlSession.tla part c19 (%s) and "
-                "exports those of <= ExportOps operations; every exported history is replayed on the real daemon (every 4th one against a reachable "
-                "node, plain or TLS, the others against an unreachable node so that replies are deterministic), histories with the same restart "
-                "positions share the daemon restarts; distinct = distinct (key classes, tls, operations, reachable)" % cfg,
-        "samples": (res.get("samples") or [{"note": "run stopped before sampling"}])[:5], "exhaustive": True, "histories": nvec,
+        "rule": ("TLC explores every history (key-class subset x TLS profile named or not x <= MaxOps operations) of ControlSession.tla part c19 (%s) and "
+                 "exports those of <= ExportOps operations; " % cfg) +
+                ("a seeded sample of %d of the %d exported histories is" % (min(nvec, QUICK_MAX), nvec) if quick else "every exported history is") +
+                " replayed on the real daemon (every 4th one against a reachable node, plain or TLS, the others against an unreachable node so that replies "
+                "are deterministic), histories with the same restart positions share the daemon restarts; distinct = distinct (key classes, tls, operations, reachable)",
+        "samples": (res.get("samples") or [{"note": "run stopped before sampling"}])[:5], "exhaustive": not quick, "histories": nvec,
         "counters": c, "witnesses": wit, "notes": res.get("notes") or [],
         "tlc": {"spec": "ControlSession.tla", "cfg": cfg, "generated": r.generated, "distinct": r.distinct, "wall_s": round(r.wall, 1)},
     }
